@@ -19,7 +19,7 @@ RULE = ("generated directory trees (names with spaces, dots, non-ASCII); all ord
 ASSUMPTIONS = ["Path.resolve() and symlinks are outside the model (paths are generated already resolved)",
                "POSIX path semantics"]
 
-NAMES = ["a", "b", "sub", "x y", "d.ir", "é", "v1.2", "data", "inc", "deep"]
+NAMES = ["a", "b", "sub", "x y", "d.ir", "é", "v1", "v1.2", "data", "inc", "deep", "run", "run2", "run 2", "a b"]
 FILES = ["f", "g.dict", "h", "my file", "p.q.r", "k"]
 
 
@@ -202,7 +202,8 @@ def run(ctx: Ctx) -> None:
         s = _name(rng)
         if _name_ok(s):
             cases.append({"kind": "incl", "name": s})
-    placements = [("same", ["w"], ["w"]), ("child", ["w"], ["w", "sub"]), ("parent", ["w", "sub"], ["w"]),
+    placements = [("prefix_sibling", ["w", "run"], ["w", "run2"]), ("prefix_sibling_dot", ["w", "v1"], ["w", "v1.2", "in"]),
+                  ("same", ["w"], ["w"]), ("child", ["w"], ["w", "sub"]), ("parent", ["w", "sub"], ["w"]),
                   ("sibling", ["w", "s1"], ["w", "s2"]), ("cousin", ["w", "s1", "t1"], ["w", "s2", "t2"]),
                   ("grandchild", ["w"], ["w", "x y", "d.ir"]), ("spaces", ["w", "x y"], ["w", "my dir", "é"])]
     for _ in range(ctx.n(6, 60)):
